@@ -113,7 +113,7 @@ def run(ck):
 
 
 def replay(obj):
-    if obj.get('kind') == 'process-run':
+    if obj.get('kind') == 'process-run' or obj.get('kind2') == 'process-run':
         from . import execproc
         return execproc.replay(obj)
     return X.replay_scenario(obj, ORACLES)
